@@ -45,7 +45,7 @@ func VH_C16_ZlibCut() {
 		if b == nb-1 {
 			final = 1
 		}
-		g.genBlock(final, vParam("TOKENS"), vParam("DYN") == 1)
+		g.genBlock(final, vParam("TOKENS"), vParam("DYN") == 1, 0)
 	}
 	g.align()
 	enc := append(append(append([]byte(nil), hdr...), g.bytes...), vBytes("adler", 4)...)
